@@ -102,6 +102,12 @@ int main()
 {
 	pj::install_terminate();
 	g_main = pthread_self();
+	// The timer thread reports its termination through fix8's global logger (glout_info).  Logging is
+	// switched off here: it is not the subject of C31, and an element allocated by a short-lived thread
+	// and released by the logger thread trips a thread-exit use-after-free in the bundled FastFlow
+	// allocator (ff/allocator.hpp FFAkeyDestructorHandler vs ~ff_allocator) about once in a few thousand
+	// timer shutdowns, which would only add noise to this check.
+	GlobalLogger::set_levels(Logger::Levels());
 	g_virtual.store(true);
 	std::unique_ptr<Mon> mon;
 	std::unique_ptr<Timer<Mon>> timer;
